@@ -283,10 +283,9 @@ def _is_server_lock_acq(x):
     cal = fb.callee(x) or ""
     if not (cal.endswith(LOCK_ACQ) or "RwLock" in cal or "Mutex" in cal):
         return False
-    r = x["recv"]
-    while r is not None and r.get("k") in ("addrof", "unary"):
-        r = r["e"]
-    return r is not None and r.get("k") == "field" and r["name"] == "server"
+    # the lock that guards the server state, whatever the field is called: receiver type RwLock<..Server> / Mutex<..Server> (through Arc / refs)
+    rt = fb.tnorm(x.get("rty") or "") + " " + fb.tnorm(x.get("rtya") or "")
+    return ("RwLock<" in rt or "Mutex<" in rt) and "router::server::Server" in rt
 
 
 def rule_r5(facts, rep, rid="C12-R5"):
